@@ -20,8 +20,14 @@ ASSUMPTIONS = ["random-oracle step: a second acceptance requires the hash of a d
 
 
 def in_known_class(k, name, case):
-    return (k.get("class") == "cid-alias-mod-q" and name == "substituted_component_rejected"
-            and case.get("component") == "cid_alias_mod_q")
+    """the open class F5: the only substituted component is the channel id, and the substituted id is another byte string
+    congruent to the original modulo q (decided on the values, not on the name of the generator)"""
+    if k.get("class") != "cid-alias-mod-q" or name != "substituted_component_rejected" or "substituted" not in case:
+        return False
+    sub = case["substituted"]
+    a, b = int.from_bytes(bytes.fromhex(case["cid"]), "little"), int.from_bytes(bytes.fromhex(sub["cid"]), "little")
+    same_rest = sub["cb"] == case["cb"] and sub["mb"] == case["mb"] and sub["ctx"] == case["ctx"] and case.get("component") != "key"
+    return same_rest and a != b and (a - b) % Q == 0
 
 
 def small_cid(rng):
@@ -62,6 +68,10 @@ def establish_substitutions(run, h, pts, batch, rng, M, M2):
             ("cid_fresh", (M, rng.randbytes(32), cb, mb, ctx)),
             ("cid_bit", (M, bytes([cid[0] ^ 1]) + cid[1:], cb, mb, ctx)),
             ("cid_alias_mod_q", (M, alias, cb, mb, ctx)),
+            # every bit of the most significant byte (the part of a channel id that a lossy id -> scalar conversion would
+            # drop first) and one random bit elsewhere; none of them is congruent to cid modulo q
+            *[("cid_top_byte_bit%d" % k, (M, cid[:31] + bytes([cid[31] ^ (1 << k)]), cb, mb, ctx)) for k in range(8)],
+            ("cid_random_bit", (M, (lambda i, k: cid[:i] + bytes([cid[i] ^ (1 << k)]) + cid[i + 1:])(rng.randrange(1, 31), rng.randrange(8)), cb, mb, ctx)),
             ("cb+1", (M, cid, cb + 1, mb, ctx)), ("cb-1", (M, cid, cb - 1, mb, ctx)),
             ("mb+1", (M, cid, cb, mb + 1, ctx)), ("mb-1", (M, cid, cb, mb - 1, ctx)),
             ("swap_balances", (M, cid, mb, cb, ctx)),
@@ -207,3 +217,13 @@ def replays(run, h, pts, rng, M, M2):
                 sc_case = dict(case, field=fname, from_message=j)
                 run.case(sc_case)
                 run.check_monitor("substituted_closing_message_rejected", r[0] == "0", dict(sc_case, result=r[0]))
+        # single-bit changes of the channel id inside the closing message (top byte: every bit)
+        a = bytes.fromhex(mhex)
+        for k in range(8):
+            sub = a[:96 + 31] + bytes([a[96 + 31] ^ (1 << k)]) + a[96 + 32:]
+            if (int.from_bytes(sub[96:128], "little") - int.from_bytes(a[96:128], "little")) % Q == 0:
+                continue
+            r = h.call("m_check_close", M.handle, sub.hex())
+            sc_case = dict(case, field="cid_top_byte_bit%d" % k)
+            run.case(sc_case)
+            run.check_monitor("substituted_closing_message_rejected", r[0] == "0", dict(sc_case, result=r[0]))
